@@ -96,11 +96,13 @@ class TermGen:
         s = self.rng.choice(self.lits)
         return ("truncate", e(), ("lit", s), len(s) + self.rng.randrange(0, 6))
 
-    def op_blk(self, depth, scope_len):
-        """an operation whose receiver is a buffered body: what `{% filter f(args) %}BODY{% endfilter %}` applies f to"""
-        body = ("blk", self.node(max(depth - 1, 0), scope_len))
+    def op_blk(self, depth, scope_len, level=0):
+        """an operation whose receiver is a buffered body — what `{% filter f(args) %}BODY{% endfilter %}` applies f to — or, up to
+        three deep, another such operation: a CHAIN `{% filter f(args)|g(args) %}`; the buffer enters the first filter as Markup"""
+        chained = level < 2 and self.rng.random() < 0.4
+        body = self.op_blk(depth, scope_len, level + 1) if chained else ("blk", self.node(max(depth - 1, 0), scope_len))
         e = lambda: self.expr(max(depth - 1, 0), scope_len)  # noqa: E731
-        k = self.rng.choice(["esc", "force", "replace", "indent", "truncate", "mod"])
+        k = self.rng.choice(["esc", "force", "replace", "indent", "truncate"] + ([] if chained else ["mod"]))
         if k in ("esc", "force"):
             return (k, body)
         if k == "replace":
@@ -275,17 +277,39 @@ class Realiser:
             return "{% import '" + lib + self.suffix + "' as " + lib + " %}", f"{lib}.{m}({params})"
         return "{% from '" + lib + self.suffix + "' import " + m + " %}", f"{m}({params})"
 
-    def filter_call(self, t, scope):
-        """for an operation whose receiver is a buffered body: (statements before, filter call text, body term), else None"""
+    CHAINABLE = ("esc", "force", "replace", "indent", "truncate", "mod")
+
+    def filter_call(self, t, scope, level=0):
+        """for an operation whose receiver is a buffered body, or (up to three deep) another such operation:
+        (statements before, [filter call texts in application order], body term), else None"""
         k = t[0]
-        if k not in ("esc", "force", "replace", "indent", "truncate", "mod") or t[1][0] != "blk":
+        if k not in self.CHAINABLE:
+            return None
+        recv = t[1]
+        if recv[0] == "blk":
+            in_pre, in_calls, body = "", [], recv[1]
+        elif level < 2 and k != "mod" and recv[0] in self.CHAINABLE:
+            r = self.filter_call(recv, scope, level + 1)
+            if r is None:
+                return None
+            in_pre, in_calls, body = r
+        else:
             return None
         parts = [self.expr(x, scope) for x in t[2:] if isinstance(x, tuple)]
         pre = "".join(p for p, _ in parts)
         c = [x for _, x in parts]
         call = {"esc": "e", "force": "forceescape", "replace": lambda: f"replace({c[0]}, {c[1]})", "indent": lambda: f"indent({c[0]}, first=true)",
                 "truncate": lambda: f"truncate({t[3]}, true, {c[0]}, 0)", "mod": lambda: f"format({c[0]})"}[k]
-        return pre, (call if isinstance(call, str) else call()), t[1][1]
+        if in_calls:
+            self.use("filter-chain")
+        return in_pre + pre, in_calls + [call if isinstance(call, str) else call()], body
+
+    def identity_chain(self):
+        """1-3 filters that leave a Markup body as it is (the chain is their composition; the buffer enters the first as Markup)"""
+        n = self.rng.choice([1, 2, 2, 3])
+        if n > 1:
+            self.use("identity-filter-chain")
+        return "|".join(self.rng.choice(["string", "default('zz')", "string", "default(none)"]) for _ in range(n))
 
     # -- bodies ---------------------------------------------------------------------------------------------------------------
     def node(self, t, scope):
@@ -299,10 +323,10 @@ class Realiser:
             if fc is not None and self.rng.random() < 0.7:
                 # {% filter f(args) %}BODY{% endfilter %} writes escape(f(Markup(concat(buffer)), args))
                 self.use("emit:filter-block")
-                return fc[0] + "{% filter " + fc[1] + " %}" + self.node(fc[2], scope) + "{% endfilter %}"
-            if t[1][0] == "blk" and self.rng.random() < 0.12:
+                return fc[0] + "{% filter " + "|".join(fc[1]) + " %}" + self.node(fc[2], scope) + "{% endfilter %}"
+            if t[1][0] == "blk" and self.rng.random() < 0.2:
                 self.use("emit:filter-block-string")
-                return "{% filter string %}" + self.node(t[1][1], scope) + "{% endfilter %}"
+                return "{% filter " + self.identity_chain() + " %}" + self.node(t[1][1], scope) + "{% endfilter %}"
             pre, c = self.expr(t[1], scope)
             r = self.rng.random()
             if r < 0.1:
@@ -333,10 +357,10 @@ class Realiser:
             if fc is not None and self.rng.random() < 0.7:
                 # {% set x | f(args) %}BODY{% endset %} binds escape(f(Markup(concat(buffer)), args))
                 self.use("bind:filtered-set-block")
-                return fc[0] + "{% set " + x + " | " + fc[1] + " %}" + self.node(fc[2], scope) + "{% endset %}" + self.node(t[2], inner)
-            if t[1][0] == "blk" and self.rng.random() < 0.12:
+                return fc[0] + "{% set " + x + " | " + "|".join(fc[1]) + " %}" + self.node(fc[2], scope) + "{% endset %}" + self.node(t[2], inner)
+            if t[1][0] == "blk" and self.rng.random() < 0.2:
                 self.use("bind:filtered-set-block-string")
-                return "{% set " + x + " | string %}" + self.node(t[1][1], scope) + "{% endset %}" + self.node(t[2], inner)
+                return "{% set " + x + " | " + self.identity_chain() + " %}" + self.node(t[1][1], scope) + "{% endset %}" + self.node(t[2], inner)
             pre, c = self.expr(t[1], scope)
             way = self.rng.choice(["set", "with", "for", "macro"])
             self.use("bind:" + way)
